@@ -475,8 +475,14 @@ def classify(case, a, b, msg):
         # same intersecting pairs, but some contact polygon has another number of vertices in the two engines (a vertex
         # on three boundary lines is kept or dropped by a comparison that is decided by the last bits), and the wrenches
         # still agree within the 5 % that property C16 grants
-        if oa.get("pairs") == ob.get("pairs") and oa.get("nverts") and ob.get("nverts") \
-                and len(oa["nverts"]) == len(ob["nverts"]) and oa["nverts"] != ob["nverts"]:
+        pa, pb = [tuple(x) for x in oa.get("pairs", [])], [tuple(x) for x in ob.get("pairs", [])]
+        na, nb = dict(zip(pa, oa.get("nverts", []))), dict(zip(pb, ob.get("nverts", [])))
+        only = set(pa) ^ set(pb)
+        changed = [q for q in set(pa) & set(pb) if na.get(q) != nb.get(q)]
+        # a polygon that loses a vertex may fall below 3 vertices and disappear in one engine: at most two such pairs,
+        # and the polygon that exists in the other engine is a triangle or quadrilateral
+        small = all((na.get(q) or nb.get(q) or 9) <= 4 for q in only)
+        if (changed or only) and len(only) <= 2 and small and oa.get("hit") == ob.get("hit"):
             wa, wb = np.array(oa["w12"], dtype=float), np.array(ob["w12"], dtype=float)
             nf = max(float(np.linalg.norm(wa[:3])), float(np.linalg.norm(wb[:3])))
             if float(np.linalg.norm(wa[:3] - wb[:3])) <= 0.05 * nf:
